@@ -398,6 +398,20 @@ class World:
                     return dict(diff=0, note='different sizes')
                 got = np.asarray(getattr(x, a['view']), float)
                 return dict(diff=max([self._rel(g, w) for g, w in zip(got, src)] + [0]))
+            if a['what'] == 'mol_bulk':
+                y = self.s[a['y']]
+                if isinstance(x, tmo.MultiStream) or isinstance(y, tmo.MultiStream) or x.chemicals is not y.chemicals:
+                    return dict(diff=0, note='not two single-phase streams of one package')
+                view = a['view']
+                np.asarray(getattr(x, view), float)                       # the view object exists before the write
+                x.imol[...] = y.imol[...]
+                ids = x.chemicals.IDs
+                want = [float(y.imol[i]) * self._factor(x, view, x.phase, i) for i in ids]
+                d1 = max([self._rel(g, w) for g, w in zip(np.asarray(getattr(x, view), float), want)] + [0])
+                # and a write through the view reaches the molar flows
+                getattr(x, 'i' + view)[ids[0]] = 7.
+                d2 = self._rel(float(x.imol[ids[0]]) * self._factor(x, view, x.phase, ids[0]), 7.)
+                return dict(diff=max(d1, d2))
             if a['what'] == 'reset_flow':
                 if isinstance(x, tmo.MultiStream):
                     return dict(diff=0, note='multi-phase: other call signature')
